@@ -255,7 +255,6 @@ class BaseCurve(Intface_BaseCurve):
             newweights = [factor0 * weight for weight in weights0]
             newweights += [factor1 * weight for weight in weights1]
             newcurve.weights = newweights
-            return newcurve
         newcurve.knot_clean([umaxleft])
         return newcurve
 
